@@ -21,8 +21,7 @@
     timeout then expires, a [join] without timeout never returns ([PHang]).
 
     Faithful oddities (see the findings): [timed_out] is "timer no longer alive"
-    whenever it fired (F-C14a); the join timeout looks only at the out/err
-    sibling, never at the stdin worker (F-C08c); under a pty a second poll after
+    whenever it fired (F-C14a); under a pty a second poll after
     the child was reaped raises ChildProcessError (F-C08b); a pty start failure
     happens in the forked child, the parent carries on (F-C08a); [kill] reaches
     the shell only, not whoever else holds the pipes (F-C14b); the child is
@@ -166,8 +165,17 @@ Definition init (c : cfg) : st :=
 Definition join_order (k : ctl) : list who :=
   filter (fun w => present (wget k w)) [WOut; WIn; WErr].
 
-(** [_thread_join_timeout]: 1 s iff the out/err sibling is dead; never for stdin *)
+(** [_thread_join_timeout]: never for the stdin worker; for stdout/stderr 1 s iff
+    the out/err sibling is dead or (since the fix of F-C08c) the stdin worker is *)
 Definition join_bounded (k : ctl) (w : who) : bool :=
+  match w with
+  | WIn => false
+  | WOut => is_dead (s_err k) || is_dead (s_in k)
+  | WErr => is_dead (s_out k) || is_dead (s_in k)
+  end.
+
+(** the rule before that fix (historical record only) *)
+Definition join_bounded_legacy (k : ctl) (w : who) : bool :=
   match w with
   | WIn => false
   | WOut => is_dead (s_err k)
